@@ -293,6 +293,10 @@ class err_handler(object):
         @param err_str: Description of the error
         @type err_str: string
         """
+        if not self.seg_node_added and self.cur_st_node is None:
+            # the segment lies outside any transaction set (a TA1, or an unknown
+            # segment after the ISA or GS): report at the enclosing level
+            return self.st_error(err_cde, err_str)
         sout = ''
         try:
             self._add_cur_seg()
@@ -317,6 +321,9 @@ class err_handler(object):
         @param err_str: Description of the error
         @type err_str: string
         """
+        if not self.seg_node_added and self.cur_st_node is None:
+            # an element of a segment that lies outside any transaction set
+            return self.st_error(err_cde, err_str)
         self._add_cur_ele()
         self.cur_ele_node.add_error(
             err_cde, err_str, bad_value)  # , pos, data_ele)
